@@ -133,8 +133,10 @@ def request(case):
         if f is None:
             return tree(['un', 'ctor1', 'N', L[0]])
         return tree(['un', 'guardAsin', fw(0, f[1], opds, out), L[0]])
+    if op == 'absm':
+        return tree(['un', 'cloneSet', 'N', L[0]])
     if op in ('sin', 'cos', 'tan', 'arctan', 'norm', 'norm_sq', 'x_rotation', 'y_rotation', 'z_rotation',
-              'axis_rotation'):
+              'axis_rotation', 'sign', 'sign0', 'int', 'frac', 'as_int', 'as_float', 'round'):
         return tree(['un', 'ctor1', 'N', L[0]])
     if op == 'arctan2':                                    # Qube.or_(x._mask_, y._mask_)
         return tree(['bin', 'ctorOr', 'N', L[1], L[0]])
@@ -302,6 +304,56 @@ def rand_opd(rng, kind, shape, role='any'):
     return o
 
 
+ADVERSARIAL = [0, 0, -8, -800, 8000000, -8000000]
+
+
+def adversarial_hidden(rng, o, p=0.6):
+    """overwrite the values stored underneath the mask: exactly 0, negative, huge"""
+    if 'mask' not in o:
+        return o
+    n = K.isz(o)
+    bits = mask_bits(o['mask'], o['shape'])
+    v = list(o['v8'])
+    pool = [0, 0, 8] if KINDS[o['k']][2] == 'bool' else ADVERSARIAL
+    for i, m in enumerate(bits):
+        if m and rng.random() < p:
+            x = rng.choice(pool)
+            v[i * n:(i + 1) * n] = [x] * n
+    return dict(o, v8=v)
+
+
+PROV_MODES = ['rows', 'shift', 'rev', 'stride', 'shift2']
+
+
+def prov_case(rng, op, kind, s, mode, nops=2):
+    """operands that are distinct views of one parent object"""
+    s = list(s)
+    if mode == 'rows':
+        par = rand_opd(rng, kind, [nops] + s, ROLE2.get(op, 'any'))
+        sels = [['i', k] for k in range(nops)]
+    elif mode == 'shift':                       # x[1:] op x[:-1]
+        n = rng.choice([1, 2, 3])
+        par = rand_opd(rng, kind, [n + 1] + s, ROLE2.get(op, 'any'))
+        sels = [['s', 1, None, None], ['s', None, -1, None]]
+    elif mode == 'shift2':                      # x[:-1] op x[1:]
+        n = rng.choice([1, 2, 3])
+        par = rand_opd(rng, kind, [n + 1] + s, ROLE2.get(op, 'any'))
+        sels = [['s', None, -1, None], ['s', 1, None, None]]
+    elif mode == 'rev':                         # x op x[::-1]
+        par = rand_opd(rng, kind, [rng.choice([2, 3])] + s, ROLE2.get(op, 'any'))
+        sels = [['s', None, None, None], ['s', None, None, -1]]
+    else:                                       # x[::2] op x[1::2]
+        n = rng.choice([1, 2])
+        par = rand_opd(rng, kind, [2 * n] + s, ROLE2.get(op, 'any'))
+        sels = [['s', None, None, 2], ['s', 1, None, 2]]
+    if nops == 3 and mode != 'rows':
+        return None
+    if isinstance(par['mask'], dict):           # keep the parent's mask a real array (or a single bool)
+        par['mask'] = mask_bits(par['mask'], par['shape'])
+    opds = [K.child(par, sel) for sel in sels]
+    return mk({'op': op, 'opds': opds, 'prov': {'par': par, 'sels': sels, 'mode': mode}})
+
+
 def lapack_agrees(o):
     """singular-matrix cases: keep only matrices where float det == 0 exactly iff the exact det is 0"""
     v = K.values_of(o)
@@ -394,7 +446,31 @@ def gen_cases(rng, tier):
                 b = rand_opd(rng, 'S', s, 'div')
                 b['mask'] = a['mask']
                 cases.append(mk({'op': op, 'opds': [a, b], 'share': True}))
+    # 1b. operand provenance: distinct views of one parent (mask arrays share a base, offsets differ)
+    PROV = [('add', 'S'), ('sub', 'S'), ('mul', 'S'), ('div', 'S'), ('floordiv', 'Si'), ('mod', 'S'), ('pow', 'S'),
+            ('arctan2', 'S'), ('sub', 'B'), ('mul', 'Si'), ('dot', 'V3'), ('cross', 'V3'), ('cross', 'V2'),
+            ('outer', 'V3'), ('element_mul', 'V3'), ('element_div', 'V3'), ('matmul', 'M2'), ('matmul', 'R'),
+            ('qmul', 'Q'), ('qdiv', 'Q'), ('pole_rotation', 'S'), ('add', 'V3'), ('sub', 'M2'), ('perp', 'V3'),
+            ('proj', 'V3'), ('ucross', 'V3'), ('dot', 'P')]
+    for _ in range(reps):
+        for op, kind in PROV:
+            for s in ([], [3], [2, 2], [1]):
+                for mode in PROV_MODES:
+                    if not thorough and rng.random() < 0.4:
+                        continue
+                    c = prov_case(rng, op, kind, s, mode)
+                    if c is not None:
+                        cases.append(c)
+        for op in ('m3_from_euler', 'q_from_euler'):
+            for s in ([], [3], [2, 2]):
+                cases.append(prov_case(rng, op, 'S', s, 'rows', nops=3))
     # 2. unary scalar functions
+    for _ in range(reps * 2):
+        for op in ('sign', 'sign0', 'int', 'frac', 'as_int', 'as_float', 'absm', 'round'):
+            for k in ('S', 'Si'):
+                for s in SHAPES1:
+                    a = adversarial_hidden(rng, rand_opd(rng, k, s, 'sqrt'))
+                    cases.append(mk({'op': op, 'opds': [a]}))
     for _ in range(reps * 2):
         for op in UN_SCALAR:
             for k in ('S', 'Si', 'B'):
@@ -402,6 +478,8 @@ def gen_cases(rng, tier):
                     continue
                 for s in SHAPES1:
                     a = rand_opd(rng, k, s, ROLE1.get(op, 'any'))
+                    if rng.random() < 0.5 and op != 'exp':
+                        a = adversarial_hidden(rng, a)
                     cases.append(mk({'op': op, 'opds': [a]}))
     for _ in range(reps):
         for sa, sb in SHAPE_PAIRS:
